@@ -276,7 +276,12 @@ class Ctx:
                     fh.write(self.solver.to_smt2())
             if r == z3.unsat:
                 STATS.by_backend["z3"] += 1
-                self.obligations.append((name, "proved", {"backend": "z3", "t": dt, **(info or {})}))
+                extra_info = {}
+                if len([1 for _n, _v, i_ in self.obligations if "goal_text" in i_]) < 2:
+                    # a couple of discharged obligations are written out for the evidence file
+                    extra_info["goal_text"] = str(f)[:500]
+                    extra_info["hypotheses"] = len(self.pc)
+                self.obligations.append((name, "proved", {"backend": "z3", "t": dt, **extra_info, **(info or {})}))
                 return "proved"
             if r == z3.sat:
                 m = self.solver.model()
